@@ -64,7 +64,7 @@ LAT_FOR_C01 = {}
 PROPS = {
     "C01": dict(
         level="proof",
-        streams=[("V1", 3000), ("V2", 2000)], configs_quick=Q4, configs_thorough=T4,
+        streams=[("V1", 3000), ("V2", 2000), ("L1", 1500)], configs_quick=Q4, configs_thorough=T4,  # L1: the lattice reduction behind the cofactored equation
         gens=["go2ir"],
         # the two Pred_* obligations: the S < L test and the canonical-encoding test of the real code (regenerated decision trees)
         theorems=reg("Voi.Props.C01", "Voi.Props.C01Concrete", "Voi.Proofs.ConcreteIface", "Voi.Proofs.GroupOrder", "Voi.Props.LatticeFuel",
@@ -84,9 +84,11 @@ PROPS = {
                 theorems={"Voi.Props.BatchInv": BATCH_THMS, "Voi.Props.CacheInv": CACHE_THMS}),
     "C10": dict(level="proof", streams=[("D1", 3000)], configs_quick=Q4, configs_thorough=T4, gens=["go2ir"], theorems=reg("Voi.Props.C10", "Voi.Proofs.SqrtRatio", "Voi.Props.L0.Pred_IsCanonicalVartime", "Voi.Props.PredBridge")),
     "C11": dict(level="proof", streams=[("T1", 3000)], configs_quick=Q4, configs_thorough=T4, theorems=reg("Voi.Props.C11")),
-    "C12": dict(level="proof", gens=["go2ir"], streams=[("Q1", 2500)], configs_quick=Q4, configs_thorough=T4,
+    "C12": dict(level="proof", gens=["go2ir"], streams=[("Q1", 2500), ("M1", 2000)], configs_quick=Q4, configs_thorough=T4,
                 theorems=reg("Voi.Props.C12", "Voi.Props.L0.Pred_ScMinimalVartime", "Voi.Props.ScMinimal", "Voi.Props.PredBridgeSc")),
-    "C13": dict(level="proof", streams=[("M1", 4000), ("S0", 2000)], configs_quick=Q4, configs_thorough=T4,
+    "C13": dict(level="proof", streams=[("M1", 4000), ("S0", 2000), ("M2", 1500),
+                                        # transcripts advanced concurrently must not interfere (both Keccak implementations)
+                                        ("M2", 3000, {"parallel": 16, "configs": ["default", "purego"]})], configs_quick=Q4, configs_thorough=T4,
                 theorems={"Voi.Props.StrobeInv": STROBE_THMS}),
     "C14": dict(level="proof", gens=["consts"], streams=[("H1", 2500), ("H2", 2000), ("H3", 2000)], configs_quick=Q4, configs_thorough=T4,
                 theorems=reg("Voi.Props.C14", "Voi.Props.C14.Expand", "Voi.Props.C14.HashWF", "Voi.Props.C14.U2F", "Voi.Props.C14.Elligator", "Voi.Props.C14.Consts")),
@@ -101,12 +103,15 @@ PROPS = {
                                         ("X1", 800, {"parallel": 16, "configs": ["default"]}), ("G1", 400, {"parallel": 16, "configs": ["default"]}),
                                         ("E1", 300, {"parallel": 16, "configs": ["default"]}), ("H2", 400, {"parallel": 16, "configs": ["default"]}),
                                         ("K1", 300, {"parallel": 16, "race": True, "configs": ["default"]}), ("V1", 300, {"parallel": 16, "race": True, "configs": ["default"]}),
-                                        ("X1", 200, {"parallel": 16, "race": True, "configs": ["default"]})],
+                                        ("X1", 200, {"parallel": 16, "race": True, "configs": ["default"]}),
+                                        # whole transcript histories from 16 goroutines, assembly and portable Keccak
+                                        ("M2", 3000, {"parallel": 16, "configs": ["default", "purego"]}),
+                                        ("M2", 400, {"parallel": 16, "race": True, "configs": ["purego"]})],
                 configs_quick=Q4, configs_thorough=T4,
                 theorems={"Voi.Props.LRUInv": LRU_THMS, "Voi.Props.LinearizeSound": LIN_THMS}),
     "C17": dict(level="proof", streams=[("R1", 8000)], configs_quick=["default", "force32bit"], configs_thorough=T4, theorems={"Voi.Props.C17": C17_THMS}),
 }
-PROPS["C19"] = dict(level="proof", streams=[("P1", 26000)], configs_quick=Q4, configs_thorough=T4, thorough_mult=1,
+PROPS["C19"] = dict(level="proof", streams=[("P1", 26000), ("M1", 2000)], configs_quick=Q4, configs_thorough=T4, thorough_mult=1,
                     theorems={"Voi.Props.TotalInv": TOTAL_THMS})
 PROPS["C08"] = dict(level="other", gens=["go2ir", "ct"], custom="ct", streams=[("T0", 3000)], configs_quick=["purego", "force32bit"], configs_thorough=T4,
                     theorems={"Voi.Props.C08": ["Voi.Props.C08.ir_leak_const", "Voi.Props.C08.run_steps_const", "Voi.Props.C08.ct_table_ok", "Voi.Props.C08.ct_table_size"]},
